@@ -121,4 +121,86 @@ theorem ltD_toDouble (m1 m2 : Int) : ltD (toDouble m1) (toDouble m2) = decide (m
     · exact le_refl _
     · exact le_of_lt (lt_of_close _ _ m2 m1 _ _ p2 p1 a2 b1 h')
 
+/-- binary64 rounding of a dyadic within `2^-15 s` of `M / 1000` (`|M| < 2^39 * 1000`) is still shown as `M` -/
+theorem round53_close (N M : Int) (K : Nat) (hK : 15 ≤ K)
+    (e1 : 32768 * (1000 * N - M * 2 ^ K) ≤ 1000 * 2 ^ K) (e2 : 32768 * (M * 2 ^ K - 1000 * N) ≤ 1000 * 2 ^ K)
+    (hr : M.natAbs < 549755813888000) : roundMsD (round53 N K) = M := by
+  unfold round53
+  simp only
+  generalize hj : shiftFrom N.natAbs 0 64 = j
+  have hjk : j + 12 ≤ K := by
+    rcases shiftFrom_min N.natAbs 0 64 with h0 | h0
+    · rw [hj] at h0; omega
+    · rw [hj] at h0
+      by_contra hc
+      have hkj : K ≤ j - 1 + 12 := by omega
+      have : (2:Nat) ^ K ≤ 2 ^ (j - 1 + 12) := Nat.pow_le_pow_right (by decide) hkj
+      rw [Nat.pow_add] at this
+      have hMabs : (M * 2 ^ K).natAbs = M.natAbs * 2 ^ K := by
+        rw [Int.natAbs_mul, Int.natAbs_pow]; rfl
+      have hb : M.natAbs * 2 ^ K ≤ 549755813887999 * 2 ^ K := Nat.mul_le_mul_right _ (by omega)
+      have hc' : ((2:Int) ^ K) = (((2:Nat) ^ K : Nat) : Int) := by simp
+      rw [hc'] at e1 e2 hMabs
+      have h12 : (2:Nat) ^ 12 = 4096 := by decide
+      have hP : 0 < (2:Nat) ^ (j - 1) := Nat.pow_pos (by decide)
+      rw [h12] at *
+      generalize (2:Nat) ^ (j - 1) = P at *
+      generalize (2:Nat) ^ K = Q at *
+      omega
+  rw [if_pos (by omega)]
+  obtain ⟨c1, c2⟩ := rneShift_close N j
+  generalize rneShift N j = n' at *
+  have hP : (0 : Int) < 2 ^ j := Int.pow_pos (by decide)
+  have hsplit : (2 : Int) ^ K = 2 ^ j * 2 ^ (K - j) := by rw [← Int.pow_add]; congr 1; omega
+  have hQ : (4096 : Int) ≤ 2 ^ (K - j) := by
+    obtain ⟨i, hi⟩ : ∃ i, K - j = 12 + i := ⟨K - j - 12, by omega⟩
+    rw [hi, Int.pow_add]
+    have : (0 : Int) < 2 ^ i := Int.pow_pos (by decide)
+    have h12 : (2 : Int) ^ 12 = 4096 := by decide
+    rw [h12]; nlinarith
+  rw [hsplit] at e1 e2
+  generalize (2 : Int) ^ j = P at *
+  generalize hQe : (2 : Int) ^ (K - j) = Q at *
+  have hx1 : P * (32768 * (1000 * n' - M * Q)) ≤ P * (16384000 + 1000 * Q) := by nlinarith
+  have hx2 : P * (32768 * (M * Q - 1000 * n')) ≤ P * (16384000 + 1000 * Q) := by nlinarith
+  have hy1 := le_of_mul_le_mul_left hx1 hP
+  have hy2 := le_of_mul_le_mul_left hx2 hP
+  apply roundMsD_of_close
+  · simp only; rw [hQe]; linarith
+  · simp only; rw [hQe]; linarith
+
+theorem diff_close (n1 n2 m1 m2 : Int) (k1 k2 : Nat) (h1 : 15 ≤ k1) (h2 : 15 ≤ k2)
+    (a1 : 1000 * n1 - m1 * 2 ^ k1 ≤ 500) (b1 : m1 * 2 ^ k1 - 1000 * n1 ≤ 500)
+    (a2 : 1000 * n2 - m2 * 2 ^ k2 ≤ 500) (b2 : m2 * 2 ^ k2 - 1000 * n2 ≤ 500)
+    (hr : (m1 - m2).natAbs < 549755813888000) : roundMsD (diffD (n1, k1) (n2, k2)) = m1 - m2 := by
+  unfold diffD
+  simp only
+  have hk1 : k1 ≤ max k1 k2 := Nat.le_max_left _ _
+  have hk2 : k2 ≤ max k1 k2 := Nat.le_max_right _ _
+  generalize max k1 k2 = K at *
+  have p1 := two_pow_ge _ h1
+  have p2 := two_pow_ge _ h2
+  have s1 : (2 : Int) ^ K = 2 ^ k1 * 2 ^ (K - k1) := by rw [← Int.pow_add]; congr 1; omega
+  have s2 : (2 : Int) ^ K = 2 ^ k2 * 2 ^ (K - k2) := by rw [← Int.pow_add]; congr 1; omega
+  have hA1 : (0 : Int) < 2 ^ (K - k1) := Int.pow_pos (by decide)
+  have hA2 : (0 : Int) < 2 ^ (K - k2) := Int.pow_pos (by decide)
+  apply round53_close _ _ _ (by omega) _ _ hr
+  all_goals
+    generalize (2 : Int) ^ K = T at *
+    generalize (2 : Int) ^ k1 = P1 at *
+    generalize (2 : Int) ^ k2 = P2 at *
+    generalize (2 : Int) ^ (K - k1) = A1 at *
+    generalize (2 : Int) ^ (K - k2) = A2 at *
+    have f1 : A1 * (1000 * n1 - m1 * P1) ≤ A1 * 500 := mul_le_mul_of_nonneg_left a1 (le_of_lt hA1)
+    have f1' : A1 * (m1 * P1 - 1000 * n1) ≤ A1 * 500 := mul_le_mul_of_nonneg_left b1 (le_of_lt hA1)
+    have f2 : A2 * (1000 * n2 - m2 * P2) ≤ A2 * 500 := mul_le_mul_of_nonneg_left a2 (le_of_lt hA2)
+    have f2' : A2 * (m2 * P2 - 1000 * n2) ≤ A2 * 500 := mul_le_mul_of_nonneg_left b2 (le_of_lt hA2)
+    have g1 : 32768 * A1 ≤ P1 * A1 := mul_le_mul_of_nonneg_right p1 (le_of_lt hA1)
+    have g2 : 32768 * A2 ≤ P2 * A2 := mul_le_mul_of_nonneg_right p2 (le_of_lt hA2)
+    have t1 : m1 * T = A1 * (m1 * P1) := by rw [s1]; ring
+    have t2 : m2 * T = A2 * (m2 * P2) := by rw [s2]; ring
+    have e : (m1 - m2) * T = m1 * T - m2 * T := by ring
+    rw [e, t1, t2]
+    nlinarith
+
 end AslProofs.DateArith
